@@ -185,6 +185,15 @@ struct Exporter {
         if (fd->getIdentifier()) name = fd->getName().str();
       }
       if (name.kind() == json::Value::Null) ct = tree(c->getCallee(), depth + 1);
+      // variadic callee: the (promoted, canonical) types of the arguments, for format / argument agreement
+      bool variadic = false;
+      if (auto *fd = c->getDirectCallee()) variadic = fd->isVariadic();
+      if (variadic) {
+        json::Array ats;
+        for (auto *a : c->arguments()) ats.push_back(a->getType().getCanonicalType().getAsString());
+        return json::Array{"c", std::move(name), std::move(ct), std::move(args), ploc(c->getBeginLoc()),
+                           macros(c->getBeginLoc()), std::move(ats)};
+      }
       return json::Array{"c", std::move(name), std::move(ct), std::move(args), ploc(c->getBeginLoc()),
                          macros(c->getBeginLoc())};
     }
